@@ -631,7 +631,7 @@ def generate(rng):
                 op = {"op": "index", "src": a, "dst": dst, "idx": gen_index(rng, m, faulty)}
             elif r < 0.46:
                 same = [i for i in lv if ms[i].kind == m.kind and (m.kind == "array" or ms[i].m == m.m)]
-                srcs = [a] + [rng.choice(same) for _ in range(rng.randint(1, 2))]
+                srcs = [a] + [rng.choice(same) for _ in range(rng.choice([0, 1, 1, 2]))]
                 if faulty and rng.random() < 0.2:
                     srcs.append(rng.choice(lv))
                 op = {"op": "concat", "srcs": srcs, "dst": dst, "plus": len(srcs) == 2 and rng.random() < 0.5}
@@ -1215,9 +1215,12 @@ class Sim:
             self.resync_group(r)
             if any(self.ms[i] is not None and self.group[i] != self.group[r] for i in range(len(self.regs)) if i != r):
                 self.res.stats["probe:copy-then-inplace-write"] += 1
-        if name in ("set_atom", "set_model", "assign", "annot", "del"):
-            # in-place edits of r may or may not show through objects derived from r without copy()
+        if name in ("set_atom", "set_model"):
+            # these write INTO the existing coordinate/annotation/box buffers, which objects derived from r
+            # without copy() may share: re-synchronise the alias group instead of checking it
             self.resync_group(op["r"])
+        # 'del', 'assign' and 'annot' REBIND arrays of r (np.delete, attribute assignment, dict update): no other
+        # object, however it was derived, may change - the other registers keep their models and are checked
         return "ok"
 
     def resync_group(self, r):
